@@ -8,7 +8,7 @@ from sysloss.system import System
 from sysloss.components import Source, Converter, PLoad, RLoad, ILoad, LinReg, RLoss
 
 PROP = "C18"
-ANS = {"c": (0.12, 0.0, 0.0), "v": (0.03, -0.1, 0.0), "r": (0.02, 0.0, 0.05), "z": (0.02, 0.0, "zero")}  # six steps of any kind keep the battery alive
+ANS = {"c": (0.12, 0.0, 0.0), "v": (0.03, -0.1, 0.0), "r": (0.02, 0.0, 0.05), "z": (0.02, 0.0, "zero"), "s": (0.0, 0.0, 0.0)}   # "s": the gauge reads the same  # six steps of any kind keep the battery alive
 TERM = {"Z": "capzero", "K": "vcut", "U": "vbelow"}
 PHASES = {"none": None, "two": {"a": 10.0, "b": 25.0}, "three": {"a": 10.0, "b": 25.0, "c": 5.0},
           "blank": {"": 10.0, "b": 25.0}}   # set_sys_phases() accepts the empty string as a phase name: it is a phase like any other
@@ -35,6 +35,22 @@ def mksys(variant, V, R, phases, bpc=None, swapped=False):
             names = list(phases)
             s.set_sys_phases(dict(phases))
             s.set_comp_phases("L", {names[0]: 1.82, names[-1]: 1.0})
+        return s
+    if variant == "M":   # a docking supply (active in the first phase only) and the battery behind a power mux: the battery idles while docked
+        from sysloss.components import PMux
+        s = System("t", Source("DOCK", vo=5.2, rs=0.05))
+        s.add_source(Source("B", vo=V, rs=R))
+        s.add_comp(["DOCK", "B"], comp=PMux("MX", rs=[0.05, 0.08], ig=1e-5))
+        s.add_comp("MX", comp=Converter("C", vo=1.8, eff=0.9, iq=1e-4, iis=2e-5))
+        s.add_comp("C", comp=PLoad("L", pwr=0.1, pwrs=1e-3))
+        s.add_comp("MX", comp=RLoad("R", rs=200.0))
+        if phases:
+            names = list(phases)
+            s.set_sys_phases(dict(phases))
+            s.set_comp_phases("DOCK", [names[0]])
+            s.set_comp_phases("L", {names[0]: 0.2, names[-1]: 0.05})
+        else:
+            s.change_comp("DOCK", comp=Source("DOCK", vo=0.0))
         return s
     if variant == "A":
         s = System("t", Source("B", vo=V, rs=R))
@@ -234,10 +250,12 @@ def check_case(case):
 
 def gen_cases(tier):
     K = 5 if tier == "quick" else 7
-    for variant in ("A", "B"):
+    for variant in ("A", "B", "M"):
         for phname in PHASES:
             for k in range(0, K + 1):
                 if variant == "B" and k > K - 1:
+                    continue
+                if variant == "M" and k > 4:
                     continue
                 for body in itertools.product("cvr", repeat=k):
                     for end in "ZKU":
@@ -257,8 +275,12 @@ def gen_cases(tier):
             for k in range(0, 4):   # battery declared with vo = 0 (placeholder); object with an edit history behind it
                 for body in itertools.product("cvr", repeat=k):
                     yield dict(variant=variant, phases=phname, seq="".join(body) + "Z", vdecl=0.0)
-                    if phname != "blank":
+                    if phname != "blank" and variant != "M":
                         yield dict(variant=variant, phases=phname, seq="".join(body) + "K", pre_edit=True)
+            for k in range(1, 5):   # a gauge that reads the same for several steps in a row is not a reason to stop
+                for body in itertools.product("cs", repeat=k):
+                    if "ss" in "".join(body) or k <= 2:
+                        yield dict(variant=variant, phases=phname, seq="".join(body) + "Z")
             for d0 in ("cap0", "vcut", "vbelow"):
                 yield dict(variant=variant, phases=phname, seq="cZ", dead0=d0)
             for c0 in (100, 200.0, 99.999, 1e-4, 5):   # capacities around the Ah / mAh display switch (an int among them)
